@@ -44,6 +44,12 @@ def discharge(ob):
     # pass 0: a goal that asks for a WITNESS (positive existential) is not what trigger-based
     # instantiation is good at; model-based instantiation first, with the full budget
     if _wants_witness(ob.goal):
+        s = _solver(ob.hyps, ob.goal, False, Z3_MS // 4)
+        r = s.check()
+        if r == z3.unsat:
+            rec.update(status="discharged", backend="z3(e-matching)")
+            rec["ms"] = round((time.time() - t0) * 1000, 1)
+            return rec
         s = _solver(ob.hyps, ob.goal, True, Z3_MS)
         r = s.check()
         if r == z3.unsat:
